@@ -526,7 +526,10 @@ func (c *ExpressionCalculator) evaluateOther(
 			if err != nil {
 				return false, err
 			}
-			result = variants.VariantFromBoolean(!result.AsBoolean())
+			// IN gives Null when an operand is Null: NOT IN stays Null then
+			if result.Type() == variants.Boolean {
+				result = variants.VariantFromBoolean(!result.AsBoolean())
+			}
 			stack.Push(result)
 			return true, nil
 		}
